@@ -62,11 +62,14 @@ def generate(R: Draw, tier: str) -> dict:
     g = docgen(rs)
     doc = g.doc(R, "small")
     n = P.size_of(doc["c"], rs.leaf_types)
-    how = R.weighted([("genuine", 3), ("perturbed", 3), ("random", 3), ("sibling-gap", 2)])
+    how = R.weighted([("genuine", 3), ("perturbed", 3), ("random", 3), ("sibling-gap", 2), ("inline-gap", 2)])
     desc = None
     if how == "sibling-gap":
         # hand-made around-step whose gap is not a flat range: must be refused, or if applied be mapped faithfully
         desc = gs.sibling_gap_step(R, g, doc)
+    elif how == "inline-gap":
+        # hand-made around-step inside a textblock: inline content kept, the characters around it replaced by text
+        desc = gs.inline_gap_step(R, g, doc)
     elif how != "random":
         node = P.build(lib, doc)
         op = go.gen_op(R, g, lib, node, OPS, steer=0.9)
